@@ -1,0 +1,40 @@
+//go:build verif
+
+package mikey
+
+// Contracts checked by /verif/govc (see /verif/DESIGN.md). Comment-only file.
+
+// The header parser never reads outside buf, whatever the bytes are (C09).
+//@ func (h *Header) unmarshal
+//@   opt safety-tag=C09
+//@   ensures[C09] err == nil ==> 10 <= ret && ret <= len(buf)
+//@   modifies fields(h), fresh
+//@   loop 1
+//@     invariant n == 10 + 9*int(_it) && int(_it) < int(numCS) && len(h.CSIDMapInfo) == int(numCS) && len(buf) >= 10 + 9*int(numCS)
+//@     invariant fresh(h.CSIDMapInfo)
+
+// Contract of the interface method: what Message.Unmarshal may rely on after a dynamic call.
+// Every implementation in the package is proved against it (govc copies the clauses).
+//@ func (p Payload) unmarshal(buf)
+//@   opt safety-tag=C09
+//@   ensures[C09] err == nil ==> 1 <= ret && ret <= len(buf)
+//@   modifies *
+
+//@ func (p *SubPayloadKeyData) unmarshal
+//@   opt safety-tag=C09
+//@   ensures[C09] err == nil ==> 4 <= ret && ret <= len(buf)
+//@   modifies *
+
+//@ func (p *PayloadKEMAC) unmarshal
+//@   loop 1
+//@     invariant 0 <= sn && sn <= len(encrData) && n == 4 + encrDataLen && len(encrData) == encrDataLen && n < len(buf) && encrDataLen >= 0
+
+//@ func (p *PayloadSP) unmarshal
+//@   loop 1
+//@     invariant 5 <= n && n <= len(buf)
+
+//@ func (m *Message) Unmarshal
+//@   opt safety-tag=C09
+//@   modifies *
+//@   loop 1
+//@     invariant 10 <= n && n <= len(buf)
